@@ -89,7 +89,7 @@ fn evaluator_case(run: &Run, case_seed: u64) {
     }
     // a share of the cases minimises distance or duration instead of cost (G1's asymmetric matrices are metric, so the
     // activity level estimates stay >= 0, the premise of the evaluator's pruning)
-    match rng.below(10) {
+    match rng.below(14) {
         0 | 1 => {
             gp.problem["objectives"] = json!([{"type": "minimize-unassigned"}, {"type": "minimize-tours"}, {"type": "minimize-distance"}]);
             run.observe("evaluator_objectives", "minimize-distance");
@@ -103,6 +103,17 @@ fn evaluator_case(run: &Run, case_seed: u64) {
         4 | 5 => {
             gp.problem["objectives"] = json!([{"type": "minimize-unassigned"}, {"type": "maximize-tours"}, {"type": "minimize-cost"}]);
             run.observe("evaluator_objectives", "maximize-tours, minimize-cost");
+        }
+        // goals whose first layer is not minimize-unassigned: the route-level estimate then starts with a positive term (the fixed
+        // cost of an unused vehicle, +1 tour) instead of the -1 of the job, so a slip in the bound which the evaluator hands down from
+        // the best alternative known so far is not hidden behind that leading component (seeded change C15j)
+        6 | 7 => {
+            gp.problem["objectives"] = json!([{"type": "minimize-tours"}, {"type": "minimize-cost"}]);
+            run.observe("evaluator_objectives", "minimize-tours, minimize-cost (no minimize-unassigned)");
+        }
+        8 | 9 => {
+            gp.problem["objectives"] = json!([{"type": "minimize-cost"}, {"type": "minimize-unassigned"}]);
+            run.observe("evaluator_objectives", "minimize-cost, minimize-unassigned");
         }
         _ => run.observe("evaluator_objectives", "default (minimize-cost)"),
     }
